@@ -48,7 +48,7 @@ type c03World struct {
 	sockMark              uint32
 	hist                  []string // textual history (witness)
 	lastConn, lastHandoff []byte
-	pressure bool
+	pressure              bool
 	failed                bool
 }
 
@@ -659,6 +659,15 @@ func (w *c03World) worldChange() {
 	switch w.r.IntN(5) {
 	case 0: // new rules
 		gen := &vk.RGen{R: w.r, Groups: verifGroups, NeighbourBias: 0.1, V6Slash0: true, MaxRules: 6}
+		if w.r.IntN(3) == 0 {
+			// the extreme swaps: everything plain direct / everything to one group / everything blocked
+			p := &vk.RProg{Fallback: vk.ROut{Name: []string{"direct", "direct", "g1", "block"}[w.r.IntN(4)]}}
+			if w.loadRules(p) {
+				w.m.Count("rule_swaps_midflow", 1)
+				w.m.Count("rule_swaps_to_constant_program", 1)
+				return
+			}
+		}
 		for i := 0; i < 5; i++ {
 			if w.loadRules(gen.Gen()) {
 				w.m.Count("rule_swaps_midflow", 1)
@@ -757,61 +766,78 @@ func (w *c03World) history() {
 	}
 	switch {
 	case scenario <= 7 && f.Proto == 6: // TCP flow opened from LAN (0-3) or locally (4-7)
+		// several connection epochs on ONE 4-tuple: every new SYN restarts tracking with
+		// the rules current at that moment, whatever state the previous epoch left behind
+		// (still ACTIVE, CLOSING, or expired).
 		syn := f
 		syn.Syn = true
-		if !w.step(mk(fwdHook, syn)) {
-			return
-		}
-		maybeChange()
 		ack := f
 		ack.Ack = true
-		for i := 0; i < 1+r.IntN(3); i++ {
-			gap()
-			if r.IntN(3) == 0 {
-				ra := rev(ack)
+		epochs := 1 + r.IntN(3)
+		for ep := 0; ep < epochs; ep++ {
+			if !w.step(mk(fwdHook, syn)) {
+				return
+			}
+			if ep > 0 {
+				w.m.Count("tcp_restart_on_syn", 1)
+			}
+			maybeChange()
+			for i := 0; i < 1+r.IntN(3); i++ {
+				gap()
 				if r.IntN(3) == 0 {
-					ra.Syn = true // SYN-ACK from the peer
+					ra := rev(ack)
+					if r.IntN(3) == 0 {
+						ra.Syn = true // SYN-ACK from the peer
+					}
+					if !w.step(mk(revHook, ra)) {
+						return
+					}
 				}
-				if !w.step(mk(revHook, ra)) {
+				if !w.step(mk(fwdHook, ack)) {
 					return
 				}
+				if r.IntN(3) == 0 {
+					maybeChange()
+				}
 			}
-			if !w.step(mk(fwdHook, ack)) {
-				return
+			switch r.IntN(3) {
+			case 0: // tuple re-used while the old entry is still ACTIVE (no FIN/RST seen, no idle timeout)
+				w.m.Count("tcp_tuple_reused_while_active", 1)
+				gap()
+				if r.IntN(2) == 0 {
+					w.worldChange()
+				}
+			case 1: // idle past the established timeout
+				w.advance([]uint64{125e9, 300e9}[r.IntN(2)])
+			default: // orderly or abortive close, then the closing timeout
+				fin := ack
+				if r.IntN(2) == 0 {
+					fin.Fin = true
+				} else {
+					fin.Rst = true
+				}
+				gap()
+				if r.IntN(2) == 0 {
+					if !w.step(mk(fwdHook, fin)) {
+						return
+					}
+				} else if !w.step(mk(revHook, rev(fin))) {
+					return
+				}
+				w.advance([]uint64{1e9, 8e9}[r.IntN(2)])
+				if !w.step(mk(fwdHook, ack)) { // still tracked inside the closing timeout
+					return
+				}
+				w.m.Count("closing_window_probes", 1)
+				if r.IntN(2) == 0 {
+					w.advance(12e9)
+					if !w.step(mk(fwdHook, ack)) { // expired: not judged
+						return
+					}
+				}
 			}
-			if r.IntN(3) == 0 {
-				maybeChange()
-			}
+			maybeChange()
 		}
-		fin := ack
-		if r.IntN(2) == 0 {
-			fin.Fin = true
-		} else {
-			fin.Rst = true
-		}
-		gap()
-		finFwd := r.IntN(2) == 0
-		if finFwd {
-			if !w.step(mk(fwdHook, fin)) {
-				return
-			}
-		} else if !w.step(mk(revHook, rev(fin))) {
-			return
-		}
-		w.advance([]uint64{1e9, 8e9}[r.IntN(2)])
-		if !w.step(mk(fwdHook, ack)) { // still tracked inside the closing timeout
-			return
-		}
-		w.m.Count("closing_window_probes", 1)
-		w.advance(12e9)
-		if !w.step(mk(fwdHook, ack)) { // expired: not judged
-			return
-		}
-		maybeChange()
-		if !w.step(mk(fwdHook, syn)) { // new SYN restarts tracking with current rules
-			return
-		}
-		w.m.Count("tcp_restart_on_syn", 1)
 	case scenario <= 7: // UDP flow
 		if !w.step(mk(fwdHook, f)) {
 			return
@@ -821,6 +847,21 @@ func (w *c03World) history() {
 				maybeChange()
 			}
 			gap()
+			if fwdHook == vk.HookWanEgressL2 && r.IntN(3) == 0 {
+				// a datagram sent by dae itself on the very same (still tracked) 5-tuple: the
+				// other process's socket went away and dae got the same source port
+				own := mk(fwdHook, f)
+				if w.sockMark != 0 && r.IntN(2) == 0 {
+					own.cookie, own.mark = uint64(950+r.IntN(5)), w.sockMark
+				} else {
+					own.cookie, own.mark = 199, 0
+					w.setCookie(199, c03DaePid, "dae")
+				}
+				if !w.step(own) {
+					return
+				}
+				w.m.Count("dae_own_on_tracked_tuple", 1)
+			}
 			if r.IntN(3) == 0 {
 				if !w.step(mk(revHook, rev(f))) {
 					return
@@ -1006,6 +1047,6 @@ func TestVerifC03(t *testing.T) {
 		}
 	}
 	m.Require("verdict_ok", "verdict_shot", "verdict_redirect", "records_recovered_from_conn_state", "records_recovered_from_handoff",
-		"hostile_frames", "wan_origin_reply_probes", "tcp_restart_on_syn", "udp_redecided_after_idle", "rule_swaps_midflow", "domain_changes_midflow", "alive_flips", "dae_own_pid_flows", "frames_under_map_pressure", "overflow_events_under_pressure")
+		"hostile_frames", "wan_origin_reply_probes", "tcp_restart_on_syn", "udp_redecided_after_idle", "rule_swaps_midflow", "domain_changes_midflow", "alive_flips", "dae_own_pid_flows", "frames_under_map_pressure", "overflow_events_under_pressure", "tcp_tuple_reused_while_active", "dae_own_on_tracked_tuple")
 	m.Done(t)
 }
